@@ -6,7 +6,7 @@
      defs l c / refs l c   number of `label l` statements / of jumps to l in the statement list c
      user_clean        no  `name:` / `jump name` / `jumpif (..) name`  line of the program names a reserved label
      is_scope code c   c is the global statement list or the body of a function of the script (Proofs/C07.v) *)
-From BS Require Import Model.Base Model.Regex Model.Num Model.ExprParser Model.Script Model.Lower Proofs.C07eq Proofs.C07.
+From BS Require Import Model.Base Model.Regex Model.Num Model.ExprParser Model.Script Model.Lower Gen.Regexes Proofs.C07eq Proofs.C07 Proofs.C07schema.
 
 (* the tie: one step of the tied model = classification followed by the pure lowering step *)
 Theorem C07_step_factors : forall ps n line, pstep ps n line = sbind (classify n line) (kstep ps n line).
@@ -68,12 +68,58 @@ Corollary C07_lint_quiet : forall chunks start code,
 Proof. exact parse_script_lint_quiet. Qed.
 Print Assumptions C07_lint_quiet.
 
-(* C07, schema clause.  FULL statement (not proved):
-     forall chunks start code, parse_script chunks start = ROk code -> script_schema code = true.
-   Proved: the statement-level schema (non-empty args / includes arrays, nesting, the expressions the lowering
-   itself builds) for every parsed script whose OWN parsed expressions use operators of the two schema enums.
-   Missing: that parse_expression only ever returns such operators (a fact about the regex engine on
-   R_EXPR_BINARY_OP / R_EXPR_UNARY_OP) — evaluated by vm_compute on every generated program by the check. *)
+(* C07, schema clause, FULL: every script the model accepts satisfies the schema predicate (Model/Lower.v
+   script_schema: non-empty args / includes arrays, nesting, operators of the two enums in every expression) —
+   no premise on the program.  Proofs/C07schema.v: the text captured by group 1 of a match of the REGENERATED
+   R_EXPR_BINARY_OP / R_EXPR_UNARY_OP is one of the literal alternatives of that regex (inversion of the match
+   relation of Proofs/RegexFacts.v), these alternatives are inside the enums (C07_operator_regexes_are_the_enums
+   below — breaks if parser.py's operator regexes and the schema enums drift apart), the precedence rotation
+   `insert` only rearranges nodes, induction on the fuel of parse_binary / parse_unary / parse_args. *)
+Theorem C07_schema : forall chunks start code,
+  parse_script chunks start = ROk code -> script_schema code = true.
+Proof. exact parse_script_schema_full. Qed.
+Print Assumptions C07_schema.
+
+(* the operator token of a successful match of the two operator regexes is in the schema enum *)
+Theorem C07_binary_op_token : forall text e c,
+  rx R_EXPR_BINARY_OP text = MYes e c -> str_mem (grp text c 1) BIN_OPS = true.
+Proof. exact binary_op_group. Qed.
+Print Assumptions C07_binary_op_token.
+
+Theorem C07_unary_op_token : forall text e c,
+  rx R_EXPR_UNARY_OP text = MYes e c -> str_mem (grp text c 1) UN_OPS = true.
+Proof. exact unary_op_group. Qed.
+Print Assumptions C07_unary_op_token.
+
+(* every expression the expression parser returns uses operators of the two enums *)
+Theorem C07_parsed_expr_schema : forall text e, parse_expression text = EOk e -> expr_schema e = true.
+Proof. exact parse_expression_schema. Qed.
+Print Assumptions C07_parsed_expr_schema.
+
+(* hence the premise of C07_schema_partial holds for every program *)
+Theorem C07_user_exprs_schema : forall chunks start, user_exprs_schema chunks start = true.
+Proof. exact user_exprs_schema_always. Qed.
+Print Assumptions C07_user_exprs_schema.
+
+(* the literal alternatives of the two regenerated operator regexes are exactly the schema enums (as sets) *)
+Example C07_operator_regexes_are_the_enums :
+  lang binop_inner = Some BIN_OPS /\ lang unop_inner = Some [U "!"; U "-"] /\ UN_OPS = [U "-"; U "!"].
+Proof. vm_compute. auto. Qed.
+
+(* non-vacuity of the two token theorems and of C07_parsed_expr_schema: real matches, a real parse with
+   both unary operators, a rotation (a * b ** c + d) and a call *)
+Example C07_op_tokens_example :
+  (match rx R_EXPR_BINARY_OP (U "  ** 2") with MYes e c => str_eqb (grp (U "  ** 2") c 1) (U "**") && Nat.eqb e 4 | _ => false end) &&
+  (match rx R_EXPR_BINARY_OP (U "|| x") with MYes e c => str_eqb (grp (U "|| x") c 1) (U "||") | _ => false end) &&
+  (match rx R_EXPR_UNARY_OP (U " !x") with MYes e c => str_eqb (grp (U " !x") c 1) (U "!") | _ => false end) &&
+  (match parse_expression (U "-a * !b ** fn(c, 1 <= d) + d") with
+   | EOk (EBin o1 (EBin o2 (EUn o3 _) (EBin o4 (EUn o5 _) _)) _) =>
+       str_eqb o1 (U "+") && str_eqb o2 (U "*") && str_eqb o3 (U "-") && str_eqb o4 (U "**") && str_eqb o5 (U "!")
+   | _ => false end) = true.
+Proof. vm_compute. reflexivity. Qed.
+
+(* the earlier, conditional form (kept: it is what Proofs/C07.v proves about the lowering alone, for ANY source of
+   expressions satisfying the enum predicate) *)
 Theorem C07_schema_partial : forall chunks start code,
   parse_script chunks start = ROk code -> user_exprs_schema chunks start = true -> script_schema code = true.
 Proof. exact parse_script_schema. Qed.
